@@ -58,6 +58,57 @@ def parameterise_sites(p, rng, prob=0.6):
     return q, extra
 
 
+def kernel_cases(rng, n):
+    """concrete inputs for the translated kernels (sorted points, evaluation points below / at / between / above)"""
+    F = gen.Fraction
+    cases = []
+    for i in range(n):
+        k = rng.randint(1, 7)
+        pts = sorted(rng.sample(range(-8, 40), k))
+        x = rng.choice([F(p) for p in pts] + [F(p) + F(1, 2) for p in pts] + [F(pts[0] - 3), F(pts[-1] + 5)])
+        name = ["binary_search_sum_ge", "piecewise_constant", "linear_curve_at_x", "interpolate_linear", "clean_compartments"][i % 5]
+        if name == "binary_search_sum_ge":
+            cases.append({"name": name, "args": {"x": str(x), "points": [str(p) for p in pts]}})
+        elif name == "piecewise_constant":
+            cases.append({"name": name, "args": {"x": str(x), "breakpoints": [str(p) for p in pts],
+                                                 "values": [str(F(rng.randint(0, 64), 8)) for _ in range(k + 1)]}})
+        elif name in ("linear_curve_at_x", "interpolate_linear"):
+            if k < 2:
+                pts = [pts[0], pts[0] + 4]
+                k = 2
+            ys = [F(rng.randint(0, 64), 8) for _ in range(k)]
+            if name == "linear_curve_at_x":
+                x = min(max(x, F(pts[0])), F(pts[-1]) - F(1, 4))     # the inner function is used inside the points only
+            cases.append({"name": name, "args": {"x": str(x), "xs": [str(p) for p in pts], "ys": [str(y) for y in ys]}})
+        else:
+            cases.append({"name": name, "args": {"compartment_values": [str(F(rng.randint(-16, 64), 8)) for _ in range(rng.randint(1, 6))]}})
+    return cases
+
+
+def kernel_lines(cases):
+    F = gen.Fraction
+
+    def arr(v):
+        return "(" + " ".join(v) + ")"
+
+    out = []
+    for c in cases:
+        a = c["args"]
+        if c["name"] in ("linear_curve_at_x", "interpolate_linear"):
+            xs, ys = [F(v) for v in a["xs"]], [F(v) for v in a["ys"]]
+            def rec(nm, pts):
+                return "(%s.points A %s) (%s.ranges A %s) (%s.bounds A %s)" % (
+                    nm, arr([str(p) for p in pts]), nm, arr([str(b - a_) for a_, b in zip(pts, pts[1:])]),
+                    nm, arr([str(pts[0]), str(pts[-1])]))
+            var = "x" if c["name"] == "linear_curve_at_x" else "t"
+            out.append("(kernel %s ((%s S %s) %s %s))" % (c["name"], var, a["x"], rec("xdata", xs), rec("ydata", ys)))
+        else:
+            binds = " ".join("(%s %s %s)" % (k, "A" if isinstance(v, list) else "S", arr(v) if isinstance(v, list) else v)
+                             for k, v in a.items())
+            out.append("(kernel %s (%s))" % (c["name"], binds))
+    return out
+
+
 def run(tier, seed):
     n = tier_n(tier, 60, 600)
     g = gen.Gen(seed * 7919 + 19)
@@ -83,6 +134,8 @@ def run(tier, seed):
             p["obs"].append({"obs": "traced_run", "solvers": ["euler", "rk4", "solve_ivp"], "param_sets": [pv, pv2], "dyn": dyn,
                              "t": t, "x": x})
         out.append(p)
+    cases = kernel_cases(g.rng, 100 if tier == "quick" else 2000)
+    out.append(carrier([{"obs": "kernels", "cases": cases}]))
     ex = checklib.explore(out, keys=KEYS, per_prog_timeout=120.0)
     # the same programs with the value-tainting array stand-in
     tainted = R.run_impl(out, extra_env={"SUMMER2_VERIF_TAINT": "1"}, per_prog_timeout=240.0)
@@ -119,9 +172,32 @@ def run(tier, seed):
                                   {"program": checklib.strip_meta(p), "obs": j, "solver": solver}, True))
                 else:
                     traced_ok += 1
+    # the translated kernels (Gen/TraceGen.v), evaluated eagerly by the extracted model, against the Python functions
+    import subprocess
+    import os
+    exe = os.path.join(checklib.BUILD, "summer_model")
+    pr = subprocess.run([exe], input="\n".join(kernel_lines(cases)) + "\n", capture_output=True, text=True, timeout=300)
+    mk = [json.loads(l) for l in pr.stdout.split("\n") if l.strip()]
+    ik = ex["ires"][-1]["obs"][0].get("kernels") if ex["ires"][-1].get("obs") else None
+    kernel_checks = 0
+    if ik is None or len(mk) != len(cases):
+        extra.append(("kernel correspondence could not be evaluated: %s" % (json.dumps(ex["ires"][-1])[:200] + pr.stderr[-200:]),
+                      {"kind": "harness"}, False))
+    else:
+        for c, a, b in zip(cases, mk, ik):
+            kernel_checks += 1
+            av = a.get("kernel")
+            if isinstance(b, dict) or av is None:
+                extra.append(("kernel %s: model %s / implementation %s on %s" % (c["name"], av, b, c["args"]), {"kernel_case": c}, True))
+                continue
+            av = [float(gen.Fraction(v)) for v in (av if isinstance(av, list) else [av])]
+            if len(av) != len(b) or any(abs(x - y) > 1e-9 * (1 + abs(x)) for x, y in zip(av, b)):
+                extra.append(("kernel %s: the translated term gives %s, the implementation %s on %s" % (c["name"], av, b, c["args"]),
+                              {"kernel_case": c, "kind": "translated kernel differs from the code"}, True))
     nontrivial = {checklib.signature(p) for p, a in zip(out, ex["mres"]) if a.get("build_error") is None}
     return {"programs": out, "explore": ex, "distinct_nontrivial": len(nontrivial), "extra_violations": extra[:12],
-            "extra_coverage": {"traced_runner_executions": traced_runs, "traced_and_identical": traced_ok},
+            "extra_coverage": {"traced_runner_executions": traced_runs, "traced_and_identical": traced_ok,
+                               "translated_kernel_evaluations_compared": kernel_checks},
             "rule": "random models in which ~60% of all numeric sites (rates, adjustments, splits, infectiousness adjustments, "
                     "mixing matrices, distribution, interpolation values, function-output constants, computed values) are "
                     "named parameters; euler run and one_step compared with the model; the implementation's jit=True runner "
@@ -129,5 +205,6 @@ def run(tier, seed):
                     "one_step at a traced time and state) is executed under the value-tainting jax stand-in - jit arguments, "
                     "loop carries and indices, cond / switch operands are tracers, bool() / int() / float() / index / boolean "
                     "mask / shape use / numpy-function use of a tracer raises, all branches of cond / switch are executed - and "
-                    "must finish with numbers bit-identical to the untraced execution; non-trivial = builds",
+                    "must finish with numbers bit-identical to the untraced execution; the kernels translated into the tracing "
+                    "model's language are evaluated on concrete inputs and compared with the Python functions; non-trivial = builds",
             "dist": dist(out)}
